@@ -1,6 +1,7 @@
 import CelmaVerif.Base.Proto
 import CelmaVerif.Model.ProgArgs.Handler
 import CelmaVerif.Model.ProgArgs.Groups
+import CelmaVerif.Model.ProgArgs.GroupsCross
 /- line-protocol driver for the argument handler model (C01–C04, C07 sources, C08) -/
 open CelmaVerif CelmaVerif.Proto CelmaVerif.Keys CelmaVerif.ProgArgs
 
@@ -216,6 +217,23 @@ def step (s : St) (line : String) : St × String :=
         let env := match env with | some [] => none | e => e
         let r := evalArguments cfg (cfg.initState inits) { file := file, env := env } (s.prog :: ws)
         (s, resLine r (showDests cfg))
+  | "pa" :: "gdef" :: rest =>
+    -- pa gdef members=<n> -- <m>:<keyspec> ...   (members created 0..n-1, then the definitions in sequence)
+    let opts := rest.takeWhile (· ≠ "--")
+    let items := (rest.dropWhile (· ≠ "--")).drop 1
+    match (kv opts "members").bind String.toNat? with
+    | none => (s, "bad-op")
+    | some n =>
+      let parsed := items.mapM (fun it => match splitOnChar ':' it with
+        | [m, spec] => m.toNat?.map (fun m => (m, spec.toList))
+        | _ => none)
+      match parsed with
+      | none => (s, "bad-op")
+      | some defs =>
+        if defs.any (fun d => d.1 ≥ n) then (s, "bad-op") else
+        match groupDefineSeq (List.replicate n []) defs 0 with
+        | none => (s, "ok")
+        | some (e, idx) => (s, s!"throw {e.name} at {idx}")
   | "pa" :: "group" :: rest =>
     match s.cfg with
     | none => (s, "bad-op")
